@@ -1,5 +1,5 @@
 """C14 — DAG diff applied to the source reproduces the target (spec/DagDiff)."""
-import json, os
+import json, os, threading, time
 
 META = dict(
     spec="DagDiff",
@@ -10,12 +10,15 @@ META = dict(
                 "remove, replace leaf, directory<->leaf, nested -- and, in a second family where directories carry their OWN data "
                 "(plain or with metadata; 2312 trees, a seed-chosen slice of the 157 216 one-edit pairs), pairs that differ in the "
                 "data of a directory, empty or populated, at the root or nested, alone or together with entry changes "
-                "(populated directory replaced by another populated directory); the harness builds them as real dag-pb nodes, runs the real "
+                "(populated directory replaced by another populated directory), and, in a third family where every node carries a "
+                "CID builder next to its payload (CIDv0/CIDv1; 5618 trees, seed-chosen slice), pairs that differ ONLY in the CID "
+                "builder of a node -- same bytes, another CID -- at a leaf, an empty or populated directory, nested or at the root "
+                "(tree equality in the spec is equality of labelled trees = equality of root CIDs); the harness builds them as real dag-pb nodes, runs the real "
                 "Diff and the real ApplyChange, and TLC validates the log case by case, one model step per reported change: "
                 "model fold = b, projection of the real ApplyChange result = model fold, CID equal to b's. Seeded random pairs "
                 "(depth 4, fan-out 6, 1..8 edits from a common ancestor) go through the same validation. TLC also shows that a "
                 "reference change set built with the ideal descent rule satisfies the property in every application order."),
-    level_note=("Trusted: mdtest.Mock DAG service, projection (payload <-> data id, CID -> subtree table, walk of the result). "
+    level_note=("Trusted: mdtest.Mock DAG service, projection (payload <-> data id, CID prefix <-> builder id, CID -> subtree table, walk of the result). "
                 "Trees use ProtoNode leaves (no raw leaves), names without '/', no duplicate names."),
     technique="TLA+ change-list semantics; TLC-enumerated tree pairs run through the real Diff/ApplyChange; recorded trace validated by TLC step by step",
 )
@@ -31,6 +34,24 @@ def sharded_cfg(ctx, cfg, shard, nshards=None):
     n = nshards or int(m[0].split("=")[1])
     out = "sh_" + cfg
     open(os.path.join(sdir, out), "w").write(txt.replace("@NSHARDS@", str(n)).replace("@SHARD@", str(shard % n)))
+    return out
+
+
+def parallel(*thunks):
+    """run independent phases (TLC model check, TLC generators, go build) concurrently; re-raise the first exception"""
+    out, errs = [None] * len(thunks), []
+
+    def wrap(i, f):
+        try:
+            time.sleep(0.2 * i)         # vlib names TLC's metadir by the millisecond
+            out[i] = f()
+        except BaseException as e:      # noqa
+            errs.append(e)
+    ths = [threading.Thread(target=wrap, args=(i, f)) for i, f in enumerate(thunks)]
+    [t.start() for t in ths]
+    [t.join() for t in ths]
+    if errs:
+        raise errs[0]
     return out
 
 
@@ -52,44 +73,57 @@ def run(ctx):
     ctx.cov["rule"] = ("cases = all pairs (a, b) of directory trees over names {x,y}, depth <= 2, leaves {1,2} with b one edit "
                        "from a (13357 pairs; quick: seeded sample; thorough: all + sample of 2-edit pairs) + family D: same "
                        "shape, leaves {1}, directory data {0,100} (own data of any directory, root included, may differ; 157216 "
-                       "pairs, seed-chosen slice 1/16 quick, 1/8 thorough) + seeded random pairs depth 4 / fan-out 6 with directory "
-                       "metadata; non-trivial = a case with at least one reported change")
+                       "pairs, seed-chosen slice 1/16 quick, 1/8 thorough) + family B: leaves {1}, directory data {0}, CID builders "
+                       "{0,1} on every node (5618 trees, ~590 000 one-edit pairs incl. builder-only changes of leaves, empty and "
+                       "populated directories, root; slice 1/64 quick, 1/16 thorough) + seeded random pairs depth 4 / fan-out 6 with "
+                       "directory metadata and 3 CID builders (node or whole subtree rebuilt with another builder); non-trivial = a case with at least one reported change")
+    ctx.open_devs()          # load the known findings before any worker thread asks for them
+    ctx.specdir("DagDiff")
+    q = ctx.quick
     # ---------------- M : change-list semantics + reference diff, every application order
-    # quick: a seed-chosen slice of the universe whose directories carry their own data (contains the plain universe);
-    # thorough: the plain universe with 2 leaf payloads exhaustively + a larger slice of the former
-    if ctx.quick:
-        ctx.tlc_mc("DagDiff", "MCDagDiff.tla", sharded_cfg(ctx, "MCDagDiffDQ.cfg", ctx.seed), timeout=900, deadlock=False)
-    else:
+    # quick: a seed-chosen slice of the universe whose nodes carry <<payload, CID builder>> labels, 2 directory labels and
+    # 2 leaf labels (it contains the plain universe, and family D up to renaming of labels: labels are opaque to the model);
+    # thorough: the plain universe with 2 leaf payloads exhaustively + larger slices of families D and B + model controls
+    def phase_m():
+        if q:
+            ctx.tlc_mc("DagDiff", "MCDagDiff.tla", sharded_cfg(ctx, "MCDagDiffBQ.cfg", ctx.seed, 256), timeout=900, deadlock=False)
+            return
         ctx.tlc_mc("DagDiff", "MCDagDiff.tla", "MCDagDiff.cfg", timeout=2400, deadlock=False, coverage=True)
         ctx.tlc_mc("DagDiff", "MCDagDiff.tla", sharded_cfg(ctx, "MCDagDiffD.cfg", ctx.seed), timeout=2400, deadlock=False)
-    if not ctx.quick:
-        # the as-built descent rule (deviation enabled) yields exactly AsBuiltResult, and breaks the property
+        ctx.tlc_mc("DagDiff", "MCDagDiff.tla", sharded_cfg(ctx, "MCDagDiffBQ.cfg", ctx.seed, 32), timeout=2400, deadlock=False)
+        # the as-built descent rules (deviation enabled) yield exactly AsBuiltResult / AsBuiltResultB, and break the property
         ctx.tlc_mc("DagDiff", "MCDagDiff.tla", "MCDagDiffDevQ.cfg", timeout=900, deadlock=False)
-        r = ctx.tlc_mc("DagDiff", "MCDagDiff.tla", "MCDagDiffDevBreaksQ.cfg", timeout=900, deadlock=False,
-                       expect_violation="AsBuiltBreaks")
-        if r["violated"] != "AsBuiltBreaks":
-            ctx.broken("model control: as-built descent rule does not break the property in the model (%s)" % r["violated"])
-    # ---------------- G : enumerate cases
-    cases = ctx.tlc_gen("DagDiff", "GenDagDiff.tla", "GenDagDiff.cfg", timeout=1200)
-    # family D: directories carry their own data (root included); a slice of the source trees chosen by the seed
-    casesD = ctx.tlc_gen("DagDiff", "GenDagDiff.tla",
-                         sharded_cfg(ctx, "GenDagDiffD.cfg", ctx.seed, 16 if ctx.quick else 8), timeout=1200)
-    if ctx.quick:
-        same = [c for c in cases if c["a"] == c["b"]]          # every a = b case (Diff(a, a) = <<>>)
-        rest = [c for c in cases if c["a"] != c["b"]]
-        ctx.rng.shuffle(rest)
-        sameD = [c for c in casesD if c["a"] == c["b"]]
-        restD = [c for c in casesD if c["a"] != c["b"]]
-        ctx.rng.shuffle(restD)
-        cases = same + rest[:1200] + sameD + restD[:1200]
+        ctx.tlc_mc("DagDiff", "MCDagDiff.tla", sharded_cfg(ctx, "MCDagDiffBDevQ.cfg", ctx.seed, 192), timeout=900, deadlock=False)
+        for cfg in ("MCDagDiffDevBreaksQ.cfg", sharded_cfg(ctx, "MCDagDiffBDevBreaksQ.cfg", ctx.seed, 192)):
+            r = ctx.tlc_mc("DagDiff", "MCDagDiff.tla", cfg, timeout=900, deadlock=False, expect_violation="AsBuiltBreaks")
+            if r["violated"] != "AsBuiltBreaks":
+                ctx.broken("model control %s: as-built descent rule does not break the property in the model (%s)" % (cfg, r["violated"]))
+    # ---------------- G : enumerate cases (plain family; family D: directories carry their own data, root included;
+    # family B: every node carries a CID builder; D and B: a slice of the source trees chosen by the seed)
+    cfgD = sharded_cfg(ctx, "GenDagDiffD.cfg", ctx.seed, 16 if q else 8)
+    cfgB = sharded_cfg(ctx, "GenDagDiffB.cfg", ctx.seed, 64 if q else 16)
+    _, cases, casesD, casesB, binp = parallel(
+        phase_m,
+        lambda: ctx.tlc_gen("DagDiff", "GenDagDiff.tla", "GenDagDiff.cfg", timeout=1200),
+        lambda: ctx.tlc_gen("DagDiff", "GenDagDiff.tla", cfgD, timeout=1200),
+        lambda: ctx.tlc_gen("DagDiff", "GenDagDiff.tla", cfgB, timeout=1200),
+        lambda: ctx.go_build("ipld/merkledag/dagutils", ["ipld/merkledag/dagutils/zz_verif_C14_test.go"]))
+    if ctx.brokens or not (cases and casesD and casesB):
+        return
+    if q:
+        def pick(cs, n):
+            same = [c for c in cs if c["a"] == c["b"]]          # every a = b case (Diff(a, a) = <<>>)
+            rest = [c for c in cs if c["a"] != c["b"]]
+            ctx.rng.shuffle(rest)
+            return same + rest[:n]
+        cases = pick(cases, 800) + pick(casesD, 800) + pick(casesB, 1000)
     else:
         two = ctx.tlc_gen("DagDiff", "GenDagDiff.tla", "GenDagDiffK2.cfg", timeout=2400)
         seen = {json.dumps(c, sort_keys=True) for c in cases}
         two = [c for c in two if json.dumps(c, sort_keys=True) not in seen]
         ctx.rng.shuffle(two)
-        cases = cases + two[:6000] + casesD
-    ctx.cov["exhaustive"] = not ctx.quick
-    binp = ctx.go_build("ipld/merkledag/dagutils", ["ipld/merkledag/dagutils/zz_verif_C14_test.go"])
+        cases = cases + two[:6000] + casesD + casesB
+    ctx.cov["exhaustive"] = not q
     inp = ctx.write_ndjson("cases.ndjson", cases)
     nrand = 60 if ctx.quick else 400
     recs, out, rc = ctx.go_run(binp, "TestVerifC14", pkg="ipld/merkledag/dagutils", infile=inp, mode="record",
